@@ -6,7 +6,8 @@ pub struct ReplaySubject<'a, Item>
 where
   Item: Clone + Send + Sync,
 {
-  subject: Arc<subject::Subject<'a, Item>>,
+  // live items travel with their position in `items`
+  subject: Arc<subject::Subject<'a, (usize, Item)>>,
   items: Arc<RwLock<Vec<Item>>>,
   was_error: Arc<RwLock<Option<RxError>>>,
   was_completed: Arc<RwLock<bool>>,
@@ -26,8 +27,12 @@ where
   }
 
   pub fn next(&self, item: Item) {
-    (*self.items.write().unwrap()).push(item.clone());
-    self.subject.next(item);
+    let n = {
+      let mut items = self.items.write().unwrap();
+      items.push(item.clone());
+      items.len() - 1
+    };
+    self.subject.next((n, item));
   }
   pub fn error(&self, err: RxError) {
     *self.was_error.write().unwrap() = Some(err.clone());
@@ -64,11 +69,12 @@ where
       let s_alive = s.clone();
 
       // live events are held back until the history has been replayed: what arrives
-      // meanwhile is already part of the history and is replayed from there
-      let ready = Arc::new(RwLock::new(false));
-      let ready_next = Arc::clone(&ready);
-      let ready_error = Arc::clone(&ready);
-      let ready_complete = Arc::clone(&ready);
+      // meanwhile is already part of the history and is replayed from there, and so
+      // is every live item whose position lies below the replayed length
+      let replayed = Arc::new(RwLock::new(None::<usize>));
+      let replayed_next = Arc::clone(&replayed);
+      let replayed_error = Arc::clone(&replayed);
+      let replayed_complete = Arc::clone(&replayed);
 
       *sbsc.write().unwrap() = Some(
         utils::ready_set_go(
@@ -87,26 +93,26 @@ where
               s.complete();
               return;
             }
-            *ready.write().unwrap() = true;
+            *replayed.write().unwrap() = Some(items.len());
           },
           subject.observable(),
         )
         .subscribe(
-          move |x| {
-            let ready = *ready_next.read().unwrap();
-            if ready {
+          move |(n, x)| {
+            let replayed = *replayed_next.read().unwrap();
+            if replayed.map_or(false, |len| n >= len) {
               s_next.next(x);
             }
           },
           move |e| {
-            let ready = *ready_error.read().unwrap();
-            if ready {
+            let replayed = *replayed_error.read().unwrap();
+            if replayed.is_some() {
               s_error.error(e);
             }
           },
           move || {
-            let ready = *ready_complete.read().unwrap();
-            if ready {
+            let replayed = *replayed_complete.read().unwrap();
+            if replayed.is_some() {
               s_complete.complete();
             }
           },
